@@ -311,6 +311,11 @@ def conclude(pid, tier, seed, res, lost, t0, rule, assumptions, extra=None,
     for l in lost[:5]:
         print("  lost shard %s: %s %s" % (l["shard"], l["why"],
                                           (l.get("log") or "")[-400:].replace("\n", " | ")))
+    kinds = {}
+    for v in new:
+        kinds[v.get("kind")] = kinds.get(v.get("kind"), 0) + 1
+    for k, n in sorted(kinds.items()):
+        print("  new-violation kind %-45s %d" % (k, n))
     if seen:
         for p in paths:
             print("VIOLATION property=%s replay=%s" % (pid, p))
